@@ -33,8 +33,8 @@
   least grid second whose hour, minute and second are listed).
   And `iter_eq_spec_minutely_byhour_byminute_partial`: MINUTELY with BYMINUTE and optional BYHOUR (in particular both
   together) under `reachableMM`.
-  Missing: BYWEEKNO / BYEASTER
-  under WEEKLY (BYWEEKNO under MONTHLY and DAILY..SECONDLY is covered) and BYEASTER outside YEARLY, nth BYDAY with plain BYDAY (all of it inside D-C01a), BYWEEKNO with BYEASTER or
+  Missing: BYEASTER
+  under WEEKLY (BYWEEKNO is covered under every frequency) and BYEASTER outside YEARLY, nth BYDAY with plain BYDAY (all of it inside D-C01a), BYWEEKNO with BYEASTER or
   nth BYDAY.  Everything else below — including
   `iter_strictMono` for all seven frequencies — is proved for ALL rules / all argument sets, with no
   `Supported` hypothesis (so also inside the known-defect classes).
@@ -60,6 +60,7 @@ import DateutilVerif.Proofs.RRuleMonthlyW
 import DateutilVerif.Proofs.RRuleMinutelyBH
 import DateutilVerif.Proofs.RRuleSecondlyBS
 import DateutilVerif.Proofs.RRuleMinutelyBHM
+import DateutilVerif.Proofs.RRuleWeeklyW
 
 namespace C01
 open RRule Cal RRule.Tables
@@ -456,6 +457,17 @@ theorem iter_eq_spec_monthly_weekno_partial (a : Args) (r : Rule) (wa : WeeknoMA
     (iter r n).1 = Spec.RRule.occ a n :=
   iter_eq_spec_monthly_weekno wa h n hm
 
+/-- **`iter_eq_spec`, proved portion, WEEKLY with BYWEEKNO** on the complement of D-C01c: INTERVAL ≥ 1, valid start, week
+    start 0..6, UNTIL not before the start, BYSETPOS only with the start on the week start (outside D-C01e), any BYMONTH /
+    BYMONTHDAY (non-zero) / BYYEARDAY / BYDAY / time parts, any COUNT, no BYEASTER.  A week that begins in late December reads
+    the 7-day tail of the week-number mask; `buildWnomask_tail` shows that the part of the tail such a week can read is right:
+    the old year's last week running over the year end (marked by the main loop) and the new year's week 1 begun in the old
+    year (the `if 1 in byweekno` block). -/
+theorem iter_eq_spec_weekly_weekno_partial (a : Args) (r : Rule) (wa : WeeklyWArgs a) (h : construct a = .ok r)
+    (n : Nat) (hn : W0 a + 7 * (n * a.interval) + 7 ≤ maxOrdinal + 1) :
+    (iter r n).1 = Spec.RRule.occ a n :=
+  iter_eq_spec_weekly_weekno wa h n hn
+
 /-- **`iter_eq_spec`, proved portion, DAILY with BYWEEKNO** — and the same extension holds in the five sub-daily
     theorems below: their argument classes (`HourlyArgs`, `HourlyByArgs`, `MinutelyArgs`, `MinutelyByArgs`,
     `SecondlyArgs`) take `WArg a`: BYWEEKNO absent, or a non-empty list on the complement of D-C01c (a listed
@@ -758,6 +770,10 @@ example : SecondlyBSArgs { freq := 6, dtstart := dt 2024 1 1 9, interval := 7, b
 example : WeeknoMArgs { freq := 1, dtstart := dt 2024 1 1 9, byweekno := some [10, 20], byweekday := some [(0, 0)] } :=
   ⟨rfl, by decide, by decide, by decide, by intro x hx; simp at hx, rfl, by decide,
    ⟨[10, 20], rfl, by decide, ⟨by decide, by decide⟩⟩⟩
+-- a WeeklyWArgs instance: weeks 1, 52 and the last week, from a week that straddles New Year (Mon 2024-12-30)
+example : WeeklyWArgs { freq := 2, dtstart := dt 2024 12 30 9, byweekno := some [1, 52, -1] } :=
+  ⟨rfl, by decide, by decide, rfl, by intro x hx; simp at hx, ⟨[1, 52, -1], rfl, by decide, ⟨by decide, by decide⟩⟩,
+   Or.inl rfl, by decide, by intro u hu; simp at hu⟩
 -- a DailyWArgs instance: every day of ISO week 1 and of the last week of the year
 example : DailyWArgs { freq := 3, dtstart := dt 2024 12 1 9, byweekno := some [1, -1] } :=
   ⟨rfl, by decide, by decide, Or.inr ⟨[1, -1], rfl, by decide, ⟨by decide, by decide⟩, by decide, by decide⟩, rfl,
